@@ -35,16 +35,54 @@ STUBS = ["buffered non-tty streams", "Question._has_stty_available -> False"]
 ASSUMPTIONS = []
 
 qmod.Question._has_stty_available = lambda self: False
-STATE = {"calls": [], "raises": False}
+STATE = {"calls": [], "raises": False, "fancy": False}
+
+
+class TtyBuffer(BufferedOutputStream):
+    """A stream that itself supports ANSI codes (a terminal)."""
+
+    def supports_ansi(self):
+        return True
 
 
 class Failure(Exception):
     pass
 
 
+def _fancy(io):
+    """What a handler typically draws: a spinner, a progress bar, sections that are overwritten."""
+    from clikit.ui.components.progress_bar import ProgressBar
+    from clikit.ui.components.progress_indicator import ProgressIndicator
+    ind = ProgressIndicator(io, interval=0)
+    ind.start("Resolving")
+    ind.advance()
+    ind.finish("Resolved")
+    bar = ProgressBar(io, 2)
+    bar.start()
+    bar.advance()
+    bar.finish()
+    io.error_line("")
+    first, second = io.section(), io.section()
+    first.write_line("<comment>pkg a</comment>: pending")
+    second.write_line("<comment>pkg b</comment>: pending")
+    first.output.overwrite("<comment>pkg a</comment>: done")
+    second.error_output.overwrite("<comment>pkg b</comment>: done")
+
+
 def _handler(tag):
     def cb(args, io):
+        if STATE["fancy"]:
+            _fancy(io)
+            STATE["calls"].append((tag, args.arguments(), None))
+            return 0
         answer = (ConfirmationQuestion("Sure?", True).ask(io), ConfirmationQuestion("Really?", False).ask(io))
+        if not io.is_interactive():
+            # questions with a validator: non-interactively they return their default AS IT IS (the index of a choice, the text of a number)
+            from clikit.ui.components.choice_question import ChoiceQuestion
+            from clikit.ui.components.question import Question
+            port = Question("Port?", "8080")
+            port.set_validator(int)
+            answer = answer + (ChoiceQuestion("Pick", ["red", "green"], 1).ask(io), port.ask(io))
         STATE["calls"].append((tag, args.arguments(), answer))
         for stream_write in (io.write_line, io.error_line):
             stream_write("<info>L0</info>")
@@ -165,7 +203,7 @@ def _case(base_i, q, verb, ansi, n, hv, short, pos, raises, rotate):
     exp_args = {"greet": {"name": "bob"}, "serve start": {"port": "80"}, "echo": {"words": ["a", "b"]}}[full_name]
     if len(calls) != 1 or calls[0][0] != full_name or calls[0][1] != exp_args:
         return False
-    if calls[0][2] != ((True, False) if n else (False, True)):     # -n: both questions return their defaults (yes / no) without reading; otherwise the typed 'n' / 'y'
+    if calls[0][2] != ((True, False, 1, "8080") if n else (False, True)):     # -n: both questions return their defaults (yes / no) without reading; otherwise the typed 'n' / 'y'
         return False
     if (status != 0) != raises:
         return False
@@ -187,6 +225,41 @@ def _case(base_i, q, verb, ansi, n, hv, short, pos, raises, rotate):
     if not raises:
         return strip(out) == _lines(level, False) and strip(err) == exp_err_prefix + _lines(level, False)
     return "handler failed" in strip(out) + strip(err)
+
+
+def _no_ansi_tty_case(base_i, mode, pos, verb, tty_out, tty_err):
+    """Streams that support ANSI themselves + a handler that draws: --no-ansi removes EVERY escape sequence (SGR and cursor control alike)."""
+    path, positionals, full_name = BASES[base_i]
+    sw = ([VERB[verb]] if VERB[verb] else []) + (["--no-ansi"] if mode == 2 else (["--ansi"] if mode == 1 else []))
+    pos = min(pos, len(positionals))
+    tokens = path + positionals[:pos] + sw + positionals[pos:]
+    i = tokens.index("-v") if "-v" in tokens else -1
+    if i >= 0 and i + 1 < len(tokens) and not tokens[i + 1].startswith("-") and kf.excluded("C09-v-swallows-positional", True):
+        return True
+    STATE["raises"], STATE["fancy"] = False, True
+    try:
+        app = build()
+        out, err = (TtyBuffer() if tty_out else BufferedOutputStream()), (TtyBuffer() if tty_err else BufferedOutputStream())
+        del STATE["calls"][:]
+        status = app.run(ArgvArgs(["app"] + tokens), StringInputStream(""), out, err)
+        o, e = out.fetch(), err.fetch()
+    finally:
+        STATE["fancy"] = False
+    if status != 0 or len(STATE["calls"]) != 1:
+        return False
+    if mode == 2:
+        return "\x1b" not in o + e and "pkg a: done" in o and "pkg b: done" in e and "Resolved" in e
+    if mode == 1:
+        return "\x1b[" in o and "\x1b[" in e            # forced on any stream
+    return ("\x1b" in o) == tty_out and ("\x1b" in e) == tty_err
+
+
+def no_ansi_tty(base: int, mode: int, pos: int, verb: int, tty_out: bool, tty_err: bool) -> bool:
+    """
+    pre: 0 <= base <= 2 and 0 <= mode <= 2 and 0 <= pos <= 2 and 0 <= verb <= 3
+    post: _
+    """
+    return untraced(_no_ansi_tty_case, conc_int(base, 0, 2), conc_int(mode, 0, 2), conc_int(pos, 0, 2), conc_int(verb, 0, 3), conc_bool(tty_out), conc_bool(tty_err))
 
 
 def switches(q: bool, ansi: int, n: bool, hv: int, short: bool, pos: int, raises: bool, rotate: bool) -> bool:
@@ -247,5 +320,7 @@ def conditions(tier):
     for vb in range(4):
         conds.append({"name": "after_dd[before=%s]" % (VERB[vb] or "none"), "fn": after_dd, "timeout": t, "part": {"vbefore": vb},
                       "bounds": "echo a %s -- <switches>: every subset as above, long/short, handler raises or not" % (VERB[vb] or "")})
+    conds.append({"name": "no_ansi_tty", "fn": no_ansi_tty, "timeout": t,
+                  "bounds": "3 commands x {no switch, --ansi, --no-ansi} at every position x 4 verbosity switches x streams that do / do not support ANSI themselves; the handler draws a progress indicator, a progress bar and overwritten sections"})
     conds.append({"name": "switches_twin", "fn": switches_twin, "timeout": t, "expect": "refute", "part": {"base": 0, "verb": 2}, "bounds": "reachability twin"})
     return conds
